@@ -53,7 +53,12 @@ def _tr(t):
             v = T.cval(n)
             e = z3.RealVal(str(v.numerator)) if v.denominator == 1 else z3.Q(v.numerator, v.denominator)
         elif op == "var":
-            e = z3.Real(n.args[0]) if n.sort == "R" else z3.Bool(n.args[0])
+            if n.sort != "R":
+                e = z3.Bool(n.args[0])
+            elif n.args[0].startswith("int$"):
+                e = z3.ToReal(z3.Int(n.args[0]))
+            else:
+                e = z3.Real(n.args[0])
         elif op == "true":
             e = z3.BoolVal(True)
         elif op == "false":
@@ -118,6 +123,8 @@ def _check(assertions, timeout_ms, want_model):
                 try:
                     if z3.is_true(val) or z3.is_false(val):
                         model[d.name()] = z3.is_true(val)
+                    elif z3.is_int_value(val):
+                        model[d.name()] = Fraction(val.as_long())
                     elif z3.is_rational_value(val):
                         model[d.name()] = Fraction(val.numerator_as_long(), val.denominator_as_long())
                     elif z3.is_algebraic_value(val):
@@ -206,8 +213,12 @@ def to_smtlib(assertions, logic="ALL"):
             continue
         if op == "var":
             nm = "|%s|" % n.args[0]
-            decls[nm] = "Real" if n.sort == "R" else "Bool"
-            names[n.id] = nm
+            if n.sort == "R" and n.args[0].startswith("int$"):
+                decls[nm] = "Int"
+                names[n.id] = "(to_real %s)" % nm
+            else:
+                decls[nm] = "Real" if n.sort == "R" else "Bool"
+                names[n.id] = nm
             continue
         if op in ("true", "false"):
             names[n.id] = op
